@@ -102,7 +102,14 @@ def valid_for(content: bytes, types=TYPES):
             elif t == "json5":
                 json5.loads(text)
             elif t == "yaml":
-                list(yaml.load_all(text, Loader=yaml.SafeLoader))
+                # PyYAML ships two parsers (pure Python and libyaml) that disagree on a few inputs, e.g. a byte order
+                # mark inside a document: the text counts as invalid only if both reject it
+                try:
+                    list(yaml.load_all(text, Loader=yaml.SafeLoader))
+                except Exception:
+                    if not hasattr(yaml, "CSafeLoader"):
+                        raise
+                    list(yaml.load_all(text, Loader=yaml.CSafeLoader))
             elif t == "csv":
                 list(csvmod.reader(io.StringIO(text)))
             elif t in ("xml", "html"):
